@@ -104,7 +104,7 @@ def run(tier, v):
     rng = random.Random(vlib.seed())
     traces = []
     for t in range(3 if tier == "thorough" else 1):
-        tr = c10.build_traces(rng, 4 + t)
+        tr = c10.build_traces(rng, 4 + t, nrich=5)
         frames = []
         for crate in ("tcp", "http", "tls"):
             frames += [f for _, f in tr[crate]]
@@ -133,7 +133,7 @@ def run(tier, v):
         # relation (both sides see the same order); but handshakes should precede data for interesting results
         traces.append(sorted(frames, key=lambda f: 0) if False else frames)
     # ordered variant: the un-shuffled concatenation gives complete connections
-    tr = c10.build_traces(rng, 5)
+    tr = c10.build_traces(rng, 5, nrich=6)
     traces.append([f for crate in ("tcp", "http", "tls") for _, f in tr[crate]] + partly_rejected_connections() + ipv6_connections())
     # a trace with IPv4 and IPv6 handshakes and exchanges under a database in which every observation is a signature of both tables of
     # its protocol, labelled by table (see C02 table selection): labels must agree between the unified and the protocol analyzers
